@@ -561,6 +561,11 @@ func c01Reader(c *fw.Ctx) fw.Outcome {
 			return fw.Bad(key, string(doc), "SRT reader, rendering {%s}: %s\ndocument: %q", o, firstDiff(exp, have), trunc(string(doc), 900))
 		}
 		c.Feature(fmt.Sprintf("read eol=%q bom=%v idx=%d sep=%s tags=%d eof=%d", o.eol, o.bom, o.indexKind, o.sep, o.tagMode, o.atEOF))
+		if c.Idx%4 == 3 {
+			if msg := altEntryPoints(c, "srt", doc, got, nil); msg != "" {
+				return fw.Bad(key, string(doc), "%s", msg)
+			}
+		}
 		c.Count("reader_documents", 1)
 	}
 	c.Count("reader_cues", int64(len(model)))
@@ -593,6 +598,11 @@ func c01Writer(c *fw.Ctx) fw.Outcome {
 	var err error
 	if p := guard(func() { err = sub.WriteToSRT(&b) }); p != "" || err != nil {
 		return fw.Bad(fw.HashString(srtDenote(model, false)), nil, "writer failed: %v %s", err, p)
+	}
+	if c.Idx%4 == 3 {
+		if msg := altWrite(c, "srt", sub, b.Bytes()); msg != "" {
+			return fw.Bad(fw.HashBytes(b.Bytes()), b.String(), "%s", msg)
+		}
 	}
 	doc := b.Bytes()
 	key := fw.HashBytes(doc)
